@@ -288,7 +288,37 @@ pub fn cold_start(ctx: &Ctx, rep: &mut Report) {
     rep.require("cold_start_processes", 60);
 }
 
+/// The SAME salt (dictated through the generator hook) for consecutive signatures of messages
+/// that have the same length, the same first and last bytes, and differ in the middle: whatever
+/// the signer remembers about the previous hash input must not be keyed by parts of it.
+fn same_salt_similar_messages<V: Fv>(ctx: &Ctx, rep: &mut Report) {
+    let (keys, _bad) = pool::keys::<V>(ctx.seed, "c01-samesalt", 1);
+    let k = match keys.first() {
+        Some(k) => k,
+        None => return,
+    };
+    let h = spec::pk_fields(&V::pk_to_bytes(&k.pk)[1..]);
+    let mut rng = rng_for(ctx.seed, &format!("c01-samesalt-{}", V::NAME));
+    use rand::Rng;
+    for round in 0..ctx.sz(6, 60) {
+        let salt: Vec<u8> = (0..40).map(|_| rng.gen()).collect();
+        let len = [24usize, 64, 200, 1000][round % 4];
+        let base: Vec<u8> = (0..len).map(|_| rng.gen()).collect();
+        for j in 0..4 {
+            let mut msg = base.clone();
+            // only bytes in the middle change
+            msg[len / 2] = j as u8;
+            msg[len / 2 - 1] ^= (round * 7 + j) as u8;
+            check_sign::<V>(k, &h, &msg, "same-salt-similar-message", &Strategy::ForcedSalt { salt: salt.clone() }, 0, ctx.seed, &format!("c01-samesalt-{}-{}-{}", V::NAME, round, j), rep);
+            rep.count("same_salt_similar_message_signatures", 1);
+        }
+    }
+}
+
 pub fn matrix(ctx: &Ctx, rep: &mut Report) {
+    same_salt_similar_messages::<F512>(ctx, rep);
+    same_salt_similar_messages::<F1024>(ctx, rep);
+    rep.require("same_salt_similar_message_signatures", 40);
     planted_keys::<F1024>(ctx, ctx.sz(64, 600), rep);
     planted_keys::<F512>(ctx, ctx.sz(16, 200), rep);
     rep.require("keys_from_the_planted_candidate_generator", 40);
